@@ -11,7 +11,9 @@ loop (`exportCsv` / `loadCsv` at the end of this file).  The model follows, line
   `append`, the `headers` setter, `dict` getter `_package` and `dict` setter `_set_dict`),
 * `XLSXSheetReader._sanitize`                       (rpft/parsers/sheets.py),
 * `converters.to_json` / `JSONSheetReader.__init__`  (`table.dict` out, `table.dict = content` in),
-* tablib's CSV `import_set` loop (blank records skipped, short rows padded).
+* tablib's CSV `import_set` loop (blank records skipped, short rows padded),
+* `omit_empty_rows` (rpft/parsers/sheets.py): what `load_csv` and `JSONSheetReader` do to the
+  Dataset tablib built — rows whose cells are all `""` are deleted, as `_sanitize` does for XLSX.
 
 `headers = []` stands for tablib's `headers = None` (the setter turns every empty collection
 into `None`, so the two cannot be told apart on a `Dataset`).  Core Lean only.
@@ -50,6 +52,19 @@ instance {ε α : Type} [DecidableEq ε] [DecidableEq α] : DecidableEq (Except 
   | .error a, .error b => if h : a = b then isTrue (by rw [h]) else isFalse (by intro e; cases e; exact h rfl)
   | .ok _, .error _ => isFalse (by intro e; cases e)
   | .error _, .ok _ => isFalse (by intro e; cases e)
+
+/-! ### `omit_empty_rows` -/
+
+/-- `any(cell != "" for cell in row)`: the row has a cell that is not the empty string
+(on text cells the same test as `_sanitize`'s `any(new_row)`). -/
+def keepRow (r : List Str) : Bool := r.any (fun c => !c.isEmpty)
+
+/-- `omit_empty_rows(table)` on the rows: `del table[index]` for every all-empty row
+(done from the end, so the indices of the rows still to be looked at do not move). -/
+def omitEmptyRows (rows : List (List Str)) : List (List Str) := rows.filter keepRow
+
+/-- `omit_empty_rows(table)`: title and headers untouched -/
+def Sheet.omitEmpty (s : Sheet) : Sheet := { s with rows := omitEmptyRows s.rows }
 
 /-! ### tablib `Dataset` bookkeeping -/
 
@@ -199,6 +214,12 @@ def readJson (name : Str) (c : JContent) : Except SErr Sheet :=
     | .ok data => .ok ⟨name, hs, data⟩
     | .error e => .error e
 
+/-- `JSONSheetReader.__init__` for one sheet: `table.dict = content`, then `omit_empty_rows(table)` -/
+def readJsonSheet (name : Str) (c : JContent) : Except SErr Sheet :=
+  match readJson name c with
+  | .ok s => .ok s.omitEmpty
+  | .error e => .error e
+
 /-! ### CSV: tablib's `import_set` loop over the records `csv.reader` yields -/
 
 def padTo (n : Nat) (r : List Str) : List Str := r ++ List.replicate (n - r.length) []
@@ -220,6 +241,12 @@ def readCsv (name : Str) (records : List (List Str)) : Except SErr Sheet :=
     | .ok data => .ok ⟨name, hs, data⟩
     | .error e => .error e
 
+/-- `load_csv` after the bytes: `omit_empty_rows(tablib.import_set(…))` -/
+def readCsvSheet (name : Str) (records : List (List Str)) : Except SErr Sheet :=
+  match readCsv name records with
+  | .ok s => .ok s.omitEmpty
+  | .error e => .error e
+
 /-- the records of a sheet as the harness writes them with Python's `csv.writer` -/
 def toCsvRecords (s : Sheet) : List (List Str) := s.headers :: s.rows
 
@@ -239,16 +266,17 @@ inductive LoadErr
   | sheet (e : SErr)            -- tablib refused a record
 deriving DecidableEq, Repr
 
-/-- `tablib.import_set(file, format="csv")` on the decoded text of the file -/
+/-- `omit_empty_rows(tablib.import_set(file, format="csv"))` on the decoded text of the file -/
 def loadCsvText (name : Str) (text : Str) : Except LoadErr Sheet :=
   match Csv.parseCsv text with
   | .error e => .error (.csv e)
   | .ok records =>
-    match readCsv name records with
+    match readCsvSheet name records with
     | .ok s => .ok s
     | .error e => .error (.sheet e)
 
-/-- `load_csv(path)`: `open(path, "r", encoding="utf-8", newline="")` + `tablib.import_set` -/
+/-- `load_csv(path)`: `open(path, "r", encoding="utf-8", newline="")` + `tablib.import_set` +
+`omit_empty_rows` -/
 def loadCsv (name : Str) (bytes : ByteArray) : Except LoadErr Sheet :=
   match Csv.decodeUtf8 bytes with
   | none => .error (.csv .decode)
@@ -329,14 +357,14 @@ inductive JsonLoadErr
   | sheet (e : SErr)             -- tablib refused a row
 deriving DecidableEq, Repr
 
-/-- `for name, content in data["sheets"].items(): table.dict = content` -/
+/-- `for name, content in data["sheets"].items(): table.dict = content; omit_empty_rows(table)` -/
 def sheetsOfMembers : JMs → Except JsonLoadErr Workbook
   | .nil => .ok []
   | .cons name content rest =>
     match contentOf content with
     | none => .error .shape
     | some c =>
-      match readJson name c with
+      match readJsonSheet name c with
       | .error e => .error (.sheet e)
       | .ok s =>
         match sheetsOfMembers rest with
